@@ -557,6 +557,15 @@ for _n, _op in (("gt", operator.gt), ("lt", operator.lt), ("ge", operator.ge), (
     reg(_n, f"__{_n}__", {"gt": "greater", "lt": "less", "ge": "greater_equal", "le": "less_equal", "eq": "eq", "ne": "not_equal"}[_n])(_mkcmp(_op))
 
 
+@reg("equal")
+def _equal(a, b):
+    """torch.equal: same shape and same contents, as a Python bool (forks when symbolic)"""
+    ea, eb = _full(E(a)), _full(E(b))
+    if tuple(ea.shape) != tuple(eb.shape):
+        return False
+    return bool(land(*[x == y for x, y in zip(ea.reshape(-1), eb.reshape(-1))]))
+
+
 @reg("logical_and", "__and__", "__rand__", "bitwise_and")
 def _land(a, b):
     if res_dtype(a, b) != torch.bool:
